@@ -33,6 +33,15 @@ Theorem c10_full_capture : forall f, wf_frame f = true ->
 Proof. exact parse_full_capture. Qed.
 Print Assumptions c10_full_capture.
 
+(* the same from ANY starting message (as the sFlow producer calls the dissector, with the sample's fields
+   already set) and with ANY bytes behind the frame that do not change what ParseMPLS could peek at *)
+Theorem c10_full_capture_on : forall m0 f extra, wf_frame f = true ->
+  mgetLI m0 cLayerStack = [] -> mgetLI m0 cLayerSize = [] -> mgetLB m0 cRhAddrs = [] ->
+  peek_etype (frame_rest f ++ extra) = peek_etype (frame_rest f) ->
+  exists m, parse_packet empty_pcfg m0 (encode_frame f ++ extra) = Ok m /\ meq m (framed m0 f).
+Proof. exact parse_full_capture_on. Qed.
+Print Assumptions c10_full_capture_on.
+
 Theorem c10_meq_observable : forall m b, meq m b -> show_msg m = show_msg b.
 Proof. exact meq_show. Qed.
 Print Assumptions c10_meq_observable.
